@@ -43,13 +43,27 @@ def _read_result(kind, path: Path):
             raise ValueError('incomplete jsonl')
         return items[0]
     if kind == 'listnpy':
-        arrs = [np.load(str(path / f'{i}.npy')) for i in range(3)]
-        return json.loads(bytes(np.concatenate(arrs[:2]).astype(np.uint8)).decode())
+        files = sorted(path.glob('*.npy'), key=lambda f: int(f.stem))
+        arrs = [np.load(str(f)) for f in files]
+        tree = json.loads(bytes(np.concatenate(arrs[:2]).astype(np.uint8)).decode())
+        extra = (4 - tree.get('#gen', 0) % 3) if '#gen' in tree else 1
+        if len(arrs) != 2 + extra or any(list(a) != [0, 0] for a in arrs[2:]):
+            raise ValueError(f'{len(arrs)} arrays stored, the run that wrote the first ones produced {2 + extra}')
+        return tree
     if kind in ('dir', 'continues'):
         if (path / 'sub' / 'more.txt').read_text() != 'x' * 10:
             raise ValueError('incomplete dir')
         return json.loads((path / 'tree.json').read_text())
     raise ValueError(kind)
+
+
+def strip_gen(tree):
+    """a provenance tree without the generation tags (for comparison with the reference value)"""
+    if isinstance(tree, dict):
+        return {k: strip_gen(v) for k, v in tree.items() if k != '#gen'}
+    if isinstance(tree, list):
+        return [strip_gen(v) for v in tree]
+    return tree
 
 
 class Epoch:
@@ -64,6 +78,8 @@ class Epoch:
         self.slots = {}
         self.nbuilt = 0
         self._paths = None
+        self.genof = opts.get('_genof', {})   # computation d -> generation of the run whose result is stored
+        self.stepno = opts.get('_stepno', 0)
         self.producer = opts.get('_producer', {})  # computation d -> RUNLOG entry of the run that wrote its result
         module_for(self.fam)
 
@@ -103,6 +119,8 @@ class Epoch:
         name = act['name']
         gen.RUNLOG.clear()
         gen.CTRL['raise'] = None
+        self.stepno += 1
+        gen.CTRL['gen'] = self.stepno if self.opts.get('gens') else None
         out = {'err': None, 'value': None}
         if name == 'NewChain':
             rcs = self._pending_rcs
@@ -159,7 +177,7 @@ class Epoch:
 
     def _tree(self, task, value):
         kind = task.__class__._vspec['kind']
-        return gen.decode(kind, value)
+        return strip_gen(gen.decode(kind, value))
 
     # ---------------------------------------------------------------- projection + comparison
     def compare(self, act, exp, out):
@@ -189,6 +207,9 @@ class Epoch:
             else:
                 real_runs.append(known[e['obj']])
         exp_runs = list(exp['lastruns'])
+        if self.opts.get('gens'):
+            for dd in (exp_runs[:-1] if exp['lasterr'] else exp_runs):
+                self.genof[dd] = self.stepno
         unordered = act['name'] in ('ChainForce', 'MultiForce')
         if (sorted(real_runs) != sorted(exp_runs)) if unordered else (real_runs != exp_runs):
             mm.append(('runs', f"run invocations {[m.slug(d) + '#' + str(d) for d in real_runs]} but the spec "
@@ -250,10 +271,14 @@ class Epoch:
                                       f'{exp_vis != 0}'))
             elif p.exists():
                 try:
-                    tree = _read_result(kind, p)
+                    raw = _read_result(kind, p)
+                    tree = strip_gen(raw)
                 except Exception as e:  # noqa
-                    tree = f'<unreadable: {type(e).__name__}: {e}>'
+                    raw, tree = None, f'<unreadable: {type(e).__name__}: {e}>'
                 want = m.ref(exp_vis) if exp_vis <= m.nd else '<poisoned>'
+                if self.opts.get('gens') and isinstance(raw, dict) and d in self.genof and raw.get('#gen') != self.genof[d]:
+                    mm.append(('value', f'stored result of {m.slug(d)}#{d} was written by the run of call #{raw.get("#gen")}, '
+                                        f'the latest run of this computation was in call #{self.genof[d]}: not replaced'))
                 if tree != want:
                     mm.append(('value', f'stored result of {m.slug(d)}#{d} is {tree!r}, spec says {want!r}'))
         return mm
@@ -381,8 +406,8 @@ def _child_epoch(model, base, work, opts, steps, carry):
             mm = [(cat, f"{act['name']} raised {type(e).__name__}: {e}"), ('trace', tb[-1500:])]
         done += 1
         if mm:
-            return done, mm, ep.producer
-    return done, [], ep.producer
+            return done, mm, (ep.producer, ep.genof, ep.stepno)
+    return done, [], (ep.producer, ep.genof, ep.stepno)
 
 
 def _final_check(model, base, work, final_state):
@@ -421,7 +446,8 @@ def replay(model: Model, behaviour, opts=None, final=True, tag='b'):
         i = 0
         while i < len(behaviour):
             try:
-                done, mm, producer = run_forked(_child_epoch, model, str(base), str(work), opts, behaviour[i:], None)
+                done, mm, (producer, genof, stepno) = run_forked(_child_epoch, model, str(base), str(work), opts, behaviour[i:], None)
+                opts = dict(opts, _genof=genof, _stepno=stepno)
                 if opts.get('runinfo'):
                     opts = dict(opts, _producer={d: ({k: v for k, v in e.items() if k in ('seq', 'slug')} if d != 'attempt' else e)
                                                  for d, e in producer.items()})
